@@ -170,9 +170,12 @@ Init ==
 (* ------------------------------------------------------------------------ *)
 (* Faults (injected by the simulated Mesos master)                          *)
 (* ------------------------------------------------------------------------ *)
-\* assumption: the state update of a task's last answer has been applied when its failure is processed
-\* (updateTaskState runs in a goroutine of its own; an arbitrarily late one could overwrite ERROR)
-Settled(ts) == \A c \in chains : c.t \notin ts
+\* assumption: the state update of a task's last answer has been applied, and an earlier fault of the same
+\* task has been taken in, when its failure is processed (updateTaskState runs in a goroutine of its own;
+\* an arbitrarily late one could overwrite ERROR)
+Settled(ts) ==
+  /\ \A c \in chains : c.t \notin ts
+  /\ \A m \in msgs : IF m.type = "failure" THEN \A u \in ts : ExecOf(layout, u) # ExecOf(layout, m.t) ELSE m.t \notin ts
 
 Note(k, ts) ==
   /\ critTouched' = (critTouched \/ \E u \in ts : crit[u])
